@@ -7,6 +7,7 @@ package main
 
 import (
 	"bytes"
+	crand "crypto/rand"
 	"crypto/sha256"
 	"encoding/json"
 	"fmt"
@@ -22,6 +23,7 @@ import (
 	"github.com/privacybydesign/gabi"
 	"github.com/privacybydesign/gabi/big"
 	"github.com/privacybydesign/gabi/gabikeys"
+	"github.com/privacybydesign/gabi/revocation"
 	"github.com/privacybydesign/gabi/verifx"
 )
 
@@ -551,7 +553,7 @@ func honest(a *hx.Args, res *hx.Result) {
 			// variant: the credential comes out of the real issuance protocol with a random-blind last attribute and a
 			// non-revocation witness, and is shown with a non-revocation proof
 			variant = "issued+randomblind+nonrev"
-			wit, _, rerr := hx.NewRevocation(cz.kp)
+			wit, upd0, rerr := hx.NewRevocation(cz.kp)
 			if rerr != nil {
 				hx.Fatal("revocation: %v", rerr)
 			}
@@ -565,6 +567,30 @@ func honest(a *hx.Args, res *hx.Result) {
 				return
 			}
 			cred, ms, nonrev = c2, c2.Attributes, true
+			if ci%8 == 1 {
+				// the wallet's normal flow: a commitment is prepared in the background, somebody else is revoked, the witness is
+				// updated - the next proof uses the REFRESHED commitment
+				variant = "issued+randomblind+nonrev+refreshed"
+				if err := cred.NonrevPrepareCache(); err != nil {
+					hx.Fatal("NonrevPrepareCache: %v", err)
+				}
+				acc0, err := upd0.SignedAccumulator.UnmarshalVerify(pk)
+				if err != nil {
+					hx.Fatal("accumulator: %v", err)
+				}
+				otherE, _ := verifx.RandomPrimeInRange(crand.Reader, 3, revocation.Parameters.AttributeSize)
+				acc1, ev1, err := acc0.Remove(cz.kp.SK, otherE, upd0.Events[0])
+				if err != nil {
+					hx.Fatal("Remove: %v", err)
+				}
+				upd1, err := revocation.NewUpdate(cz.kp.SK, acc1, []*revocation.Event{ev1})
+				if err != nil {
+					hx.Fatal("NewUpdate: %v", err)
+				}
+				if err := cred.NonRevocationWitness.Update(pk, upd1); err != nil {
+					hx.Fatal("Witness.Update: %v", err)
+				}
+			}
 		} else {
 			sig, err := gabi.SignMessageBlock(cz.kp.SK, pk, ms)
 			if err != nil {
@@ -613,6 +639,17 @@ func honest(a *hx.Args, res *hx.Result) {
 				continue
 			}
 			res.Count("variant:" + variant)
+			// every group element of the non-revocation part is a reduced residue, and none is a multiple (as an integer) of the
+			// holder's witness value u - the issuer, who can compute u for every credential, would recognise the holder by it
+			if nr := p.NonRevocationProof; nr != nil {
+				u := cred.NonRevocationWitness.U
+				for name, x := range map[string]*big.Int{"C_r": nr.Cr, "C_u": nr.Cu} {
+					if x.Sign() <= 0 || x.Cmp(pk.N) >= 0 || new(big.Int).Mod(x, u).Sign() == 0 {
+						res.Violation("witness-value-leaks", fmt.Sprintf("%s of the non-revocation proof is sent as an integer of %d bits (|n| = %d) that is %sa multiple of the holder's witness value u",
+							name, x.BitLen(), pk.N.BitLen(), map[bool]string{true: "", false: "not reduced / not "}[new(big.Int).Mod(x, u).Sign() == 0]), detail)
+					}
+				}
+			}
 			if list.Verify([]*gabikeys.PublicKey{pk}, ctx, nonce, !issig, nil) {
 				res.Violation("session-kind-confusion", "a proof verifies for the other session kind", detail)
 			}
